@@ -7,6 +7,7 @@ package main
 
 import (
 	"fmt"
+	"os"
 	"runtime/debug"
 	"go/constant"
 	"go/token"
@@ -247,8 +248,12 @@ func (in *Interp) visitInstr(fr *frame, instr ssa.Instruction) (ret bool) {
 	case *ssa.Store:
 		in.store(fr.get(instr.Addr), fr.get(instr.Val), instr.Pos())
 	case *ssa.If:
+		cond := fr.get(instr.Cond).(*Term)
+		if cond.op != OConst && in.concrete == nil && os.Getenv("VERIF_NOMERGE") == "" && in.mergeChain(fr, instr, cond) {
+			break
+		}
 		succ := 1
-		if in.decideBool(fr.get(instr.Cond).(*Term)) {
+		if in.decideBool(cond) {
 			succ = 0
 		}
 		fr.prevBlock, fr.block = fr.block, fr.block.Succs[succ]
@@ -884,4 +889,246 @@ func (in *Interp) describe(v Value) string {
 		return "{" + strings.Join(parts, ",") + "}"
 	}
 	return fmt.Sprintf("%T", v)
+}
+
+
+// mergeChain recognises short-circuit chains (a && b && c, a || b || c) whose
+// later conditions are computed by pure instructions, and turns them into a
+// single two-way decision on the conjunction instead of one fork per
+// conjunct. Returns false (and changes nothing) if the shape does not match.
+func (in *Interp) mergeChain(fr *frame, first *ssa.If, cond *Term) bool {
+	b0 := fr.block
+	for _, exitIdx := range []int{1, 0} { // 1: and-chain (exit = false edge); 0: or-chain
+		exit := b0.Succs[exitIdx]
+		next := b0.Succs[1-exitIdx]
+		if exit == next {
+			continue
+		}
+		// literal to continue along the chain
+		lit := cond
+		if exitIdx == 0 {
+			lit = in.ts.Not(cond)
+		}
+		chain := []*ssa.BasicBlock{}
+		cur := next
+		acc := lit
+		ok := true
+		saved := map[ssa.Value]Value{}
+		var defined []ssa.Value
+		last := b0
+		for steps := 0; steps < 6; steps++ {
+			if len(cur.Preds) != 1 || cur == exit || len(cur.Instrs) == 0 {
+				break
+			}
+			ifi, isIf := cur.Instrs[len(cur.Instrs)-1].(*ssa.If)
+			if !isIf {
+				break
+			}
+			var contIdx int
+			switch {
+			case cur.Succs[exitIdx] == exit:
+				contIdx = 1 - exitIdx
+			default:
+				contIdx = -1
+			}
+			if contIdx < 0 {
+				break
+			}
+			// all other instructions must be pure and total in the current state
+			pure := true
+			for _, ins := range cur.Instrs[:len(cur.Instrs)-1] {
+				if !in.safePure(fr, ins) {
+					pure = false
+					break
+				}
+				if v, isV := ins.(ssa.Value); isV {
+					if old, had := fr.env[v]; had {
+						saved[v] = old
+					}
+					defined = append(defined, v)
+				}
+				in.visitInstr(fr, ins)
+			}
+			if !pure {
+				break
+			}
+			c2 := fr.get(ifi.Cond).(*Term)
+			l2 := c2
+			if contIdx == 1 {
+				l2 = in.ts.Not(c2)
+			}
+			acc = in.ts.And(acc, l2)
+			chain = append(chain, cur)
+			last = cur
+			cur = cur.Succs[contIdx]
+			if acc.IsFalse() {
+				break
+			}
+		}
+		if len(chain) == 0 {
+			ok = false
+		}
+		// the exit block must see the same phi values from every chain edge
+		if ok {
+			for _, ins := range exit.Instrs {
+				phi, isPhi := ins.(*ssa.Phi)
+				if !isPhi {
+					break
+				}
+				var ref ssa.Value
+				have := false
+				for pi, pred := range exit.Preds {
+					if pred == b0 || containsBlock(chain, pred) {
+						if !have {
+							ref, have = phi.Edges[pi], true
+						} else if phi.Edges[pi] != ref {
+							// allow equal constants
+							c1, ok1 := ref.(*ssa.Const)
+							c2, ok2 := phi.Edges[pi].(*ssa.Const)
+							if !(ok1 && ok2 && c1.Value == c2.Value && types.Identical(c1.Type(), c2.Type())) {
+								ok = false
+							}
+						}
+					}
+				}
+			}
+		}
+		if !ok {
+			// undo speculative definitions
+			for _, v := range defined {
+				if old, had := saved[v]; had {
+					fr.env[v] = old
+				} else {
+					delete(fr.env, v)
+				}
+			}
+			continue
+		}
+		if in.decideBool(acc) {
+			fr.prevBlock, fr.block = last, cur
+		} else {
+			fr.prevBlock, fr.block = b0, exit
+		}
+		return true
+	}
+	return false
+}
+
+func containsBlock(bs []*ssa.BasicBlock, b *ssa.BasicBlock) bool {
+	for _, x := range bs {
+		if x == b {
+			return true
+		}
+	}
+	return false
+}
+
+// safePure reports whether ins can be executed speculatively: no side
+// effects, no decisions, cannot panic in the current state.
+func (in *Interp) safePure(fr *frame, ins ssa.Instruction) bool {
+	has := func(v ssa.Value) (Value, bool) {
+		switch v.(type) {
+		case *ssa.Const, *ssa.Function, *ssa.Global, *ssa.Builtin:
+			return fr.get(v), true
+		}
+		x, ok := fr.env[v]
+		return x, ok
+	}
+	switch ins := ins.(type) {
+	case *ssa.DebugRef:
+		return true
+	case *ssa.BinOp:
+		x, ok1 := has(ins.X)
+		y, ok2 := has(ins.Y)
+		if !ok1 || !ok2 {
+			return false
+		}
+		if ins.Op == token.QUO || ins.Op == token.REM {
+			t, isT := y.(*Term)
+			return isT && t.op == OConst && t.val != 0
+		}
+		switch ins.Op {
+		case token.EQL, token.NEQ:
+			_, a := x.(*Term)
+			_, b := y.(*Term)
+			if a && b {
+				return true
+			}
+			// nil checks of pointers/slices/interfaces are fine too
+			switch x.(type) {
+			case *Value, Slice, Iface, *MapV, *ChanV:
+				return true
+			}
+			return false
+		}
+		_, a := x.(*Term)
+		_, b := y.(*Term)
+		return a && b
+	case *ssa.UnOp:
+		x, ok := has(ins.X)
+		if !ok {
+			return false
+		}
+		switch ins.Op {
+		case token.NOT, token.SUB, token.XOR:
+			_, isT := x.(*Term)
+			return isT
+		case token.MUL:
+			p, isP := x.(*Value)
+			return isP && p != nil
+		}
+		return false
+	case *ssa.Convert:
+		if _, ok := has(ins.X); !ok {
+			return false
+		}
+		_, _, ok1 := intInfo(ins.X.Type())
+		_, _, ok2 := intInfo(ins.Type())
+		return ok1 && ok2
+	case *ssa.ChangeType:
+		_, ok := has(ins.X)
+		return ok
+	case *ssa.Extract:
+		_, ok := has(ins.Tuple)
+		return ok
+	case *ssa.Field:
+		_, ok := has(ins.X)
+		return ok
+	case *ssa.FieldAddr:
+		x, ok := has(ins.X)
+		if !ok {
+			return false
+		}
+		p, isP := x.(*Value)
+		return isP && p != nil
+	case *ssa.IndexAddr:
+		x, ok1 := has(ins.X)
+		iv, ok2 := has(ins.Index)
+		if !ok1 || !ok2 {
+			return false
+		}
+		it, isT := iv.(*Term)
+		if !isT || it.op != OConst {
+			return false
+		}
+		n := -1
+		switch x := x.(type) {
+		case Slice:
+			n = len(x)
+		case *Value:
+			if x != nil {
+				if a, isA := (*x).(Array); isA {
+					n = len(a)
+				}
+			}
+		}
+		return n >= 0 && sext(it.val, it.w) >= 0 && sext(it.val, it.w) < int64(n)
+	case *ssa.Call:
+		if b, isB := ins.Call.Value.(*ssa.Builtin); isB && (b.Name() == "len" || b.Name() == "cap") {
+			_, ok := has(ins.Call.Args[0])
+			return ok
+		}
+		return false
+	}
+	return false
 }
